@@ -11,6 +11,7 @@ reference.  A failed connect triggers a refresh since F-04b was repaired.
 -/
 import SamVerif.Proofs.Upstream
 import SamVerif.Gen.Upstream
+import SamVerif.Proofs.ClusterRef
 namespace SamVerif.Props.C04
 open SamVerif.Upstream
 
@@ -154,6 +155,17 @@ theorem interference_only_costs_hops (t : Truth) (present : Bool)
             simp [nodeAnswer, hf, this]
         rw [adv_moved _ _ _ _ owner _ _ hm, h1]; rfl
 
+/-- **The reference used by the differential runs agrees with the theorem.** What
+`Drive.Cluster.route` predicts for a keyed command in a calm cluster (every node reachable at the
+address the proxy knows, no lagging views) is execution on the key's holder after at most two
+redirections — the executable reference is `follow`, not a second opinion. -/
+theorem reference_route_is_the_proven_walk (c : Drive.Cluster.Cl) (hc : Drive.Cluster.Calm c) (k : Drive.Cluster.Bytes) (present : Bool)
+    (hdst : ∀ d, (Drive.Cluster.truthOf c (Drive.Cluster.slotOf k)).target = some d →
+      d ≠ (Drive.Cluster.truthOf c (Drive.Cluster.slotOf k)).owner) :
+    ∃ r, r ≤ 2 ∧ Drive.Cluster.route c k present =
+      (some (holder (Drive.Cluster.truthOf c (Drive.Cluster.slotOf k)) (present && !c.movedKeys.contains k)), r, decide (r > 0)) :=
+  Drive.Cluster.route_reaches_holder c hc k present hdst
+
 /-- **The code the model was written against.** The statements of the modelled functions,
 regenerated from the current source on every run, are the ones the model was written against;
 any edit to one of them makes this obligation fail and starts a search for a failing input. -/
@@ -219,3 +231,4 @@ end SamVerif.Props.C04
 #print axioms SamVerif.Props.C04.no_redirect_when_table_is_current
 #print axioms SamVerif.Props.C04.code_matches_model
 #print axioms SamVerif.Props.C04.interference_only_costs_hops
+#print axioms SamVerif.Props.C04.reference_route_is_the_proven_walk
